@@ -1341,6 +1341,11 @@ class Prov:
             for side in ("a", "b"):
                 if rv[side]["k"] == "const" and "v" in rv[side]:
                     cv = rv[side]["v"]
+            if cv is None:
+                for side in ("a", "b"):        # `_16 = 4_usize; Eq(move _14, move _16)`
+                    c = const_value(fn, rv[side], 3)
+                    if c is not None:
+                        cv = c
             for side in ("a", "b"):
                 for o in self._rec(fn, rv[side], (), depth, _seen):
                     out.add(Origin(o.kind, o.key, o.path, o.via + (("binop", rv["op"], cv, side),)))
@@ -1394,10 +1399,14 @@ class Prov:
             if self._is_closure_arg(fn, args[ci]):
                 out |= self._closure_result(fn, args[ci], path, depth, _seen, via, data=args[di])
             else:
-                # a function item or an opaque callable: the result depends on data and callable
+                # a function item or an opaque callable: the result depends on data and callable; a foreign function
+                # handed over by name (`.all(u8::is_ascii_hexdigit)`) is applied to the data: recorded like a call
+                applied = ()
+                if args[ci]["k"] == "const" and "fn" in args[ci] and args[ci]["fn"] not in self.facts.fns:
+                    applied = (("call", args[ci]["fn"], b),)
                 for a in (args[di], args[ci]):
                     for o in self._rec(fn, a, (), depth, _seen):
-                        out.add(Origin(o.kind, o.key, o.path, o.via + (via,)))
+                        out.add(Origin(o.kind, o.key, o.path, o.via + (applied if a is args[di] else ()) + (via,)))
                 if args[ci]["k"] == "const" and "fn" in args[ci]:
                     g = self.facts.fns.get(args[ci]["fn"])
                     if g is not None and depth < self.max_depth:
@@ -1450,7 +1459,10 @@ class Prov:
         return out
 
     def _closure_def(self, fn, op):
-        """If operand is (a move of) a closure constructed in fn: (closure Fn, aggregate rvalue)."""
+        """If operand is (a move of) a closure constructed in fn: (closure Fn, aggregate rvalue). A crate-local function
+        handed over by name (`.all(is_hex)`) counts as a closure without captures."""
+        if op["k"] == "const" and op.get("fn") in self.facts.fns:
+            return (self.facts.fns[op["fn"]], {"k": "agg", "closure": op["fn"], "ops": [], "fields": [], "fn_item": True})
         if op["k"] not in ("copy", "move") or op["p"]:
             return None
         cur = op["l"]
